@@ -15,7 +15,7 @@ def families(ctx, quick):
     vals = lang.BOUNDARY
     pairs = [(a, b) for a in vals for b in vals]
     for op in lang.BINOPS:
-        chunk = pairs if not quick else rng.sample(pairs, 170)
+        chunk = (pairs if not quick else rng.sample(pairs, 160)) + lang.NEAR_PAIRS
         nz = [(a, b) for a, b in chunk if b != 0] if op in ("/", "%") else chunk
         # division by zero is total on the VM and a documented fault natively: the native run gets the non-zero divisors only
         for k in range(0, len(chunk), 170):
